@@ -392,6 +392,9 @@ def file_stream_long(ctx, rng, count):
             ctx.fail('C14/file-long-bound', case, {'error': err})
 
 
+PREV_LOADED = []
+
+
 def memory_stream(ctx, rng, count):
     """shapes inside ONE sequence object, compared with what the caller handed over (not with another decode):
     families of near-twin raster shapes that differ by a few 1e-8 .. 1e-6 of full scale (each must come back as itself
@@ -399,8 +402,9 @@ def memory_stream(ctx, rng, count):
     gradient rasters from 1 us to 20 us (the time points must come back exactly); then the same comparison after
     write + read.  Amplitudes are exactly 1 so that the stored shape IS the waveform."""
     import pypulseq as pp
+    del PREV_LOADED[:]
     for k in range(count):
-        r = rng.choice([10e-6, 1e-6, 4e-6, 20e-6, 10e-6])
+        r = rng.choice([10e-6, 1e-6, 4e-6, 20e-6, 10e-6, 6.4e-6, 2.5e-6, 0.5e-6])
         system = pp.Opts(max_grad=1e12, max_slew=1e16, grad_raster_time=r, rf_raster_time=1e-6, block_duration_raster=r)
         seq = pp.Sequence(system)
         stored = {}
@@ -478,6 +482,23 @@ def memory_stream(ctx, rng, count):
             return True
         if not compare(seq, 'stored'):
             continue
+        # history on the same object: the last block has been decoded; overwrite it with a gradient whose shape is new to
+        # the library (every shape of this family is new), decode again: it must be the new one
+        if rng.random() < 0.6:
+            last_id = list(seq.block_events.keys())[-1]
+            n = rng.randint(6, 30)
+            w = np.round(np.array([rng.uniform(-1, 1) for _ in range(n)]), 7)
+            w[rng.randrange(n)] = 1.0
+            ev = pp.make_arbitrary_grad(rng.choice('xyz'), w, first=0.0, last=0.0, system=system)
+            try:
+                seq.get_block(last_id)
+                seq.set_block(last_id, ev, pp.make_delay(math.ceil(pp.calc_duration(ev) / r - 1e-9) * r + 10 * r))
+                stored[last_id] = [ev]
+                ctx.count('memory.overwrite_last')
+            except Exception:  # noqa: BLE001
+                ctx.count('memory.skipped_overwrite_raise')
+            if not compare(seq, 'overwritten'):
+                continue
         with tempfile.TemporaryDirectory(prefix='pvC14m') as d:
             fn = os.path.join(d, 'm.seq')
             try:
@@ -485,13 +506,23 @@ def memory_stream(ctx, rng, count):
             except AssertionError:
                 ctx.count('memory.skipped_write_assertion')
                 continue
-            s2 = pp.Sequence(system)
+            s2 = pp.Sequence(system, use_block_cache=rng.random() < 0.5)
+            ropts = {'remove_duplicates': False} if rng.random() < 0.5 else {}
+            case['read_options'] = ropts
             try:
-                s2.read(fn)
+                s2.read(fn, **ropts)
             except Exception as e:  # noqa: BLE001
                 ctx.fail('C14/memory-raises', dict(case, where='read'), {'exception': repr(e)[:200]})
                 continue
         compare(s2, 'reread')
+        # the object loaded in the PREVIOUS case still holds that case's shapes, whatever was read elsewhere since
+        if PREV_LOADED:
+            pobj, pstored, pcase = PREV_LOADED.pop()
+            keep_stored, keep_case = stored, case
+            stored, case = pstored, dict(pcase, rechecked_after_index=k)
+            compare(pobj, 'earlier-object-after-later-read')
+            stored, case = keep_stored, keep_case
+        PREV_LOADED.append((s2, dict(stored), dict(case)))
 
 
 def corpus():
